@@ -286,6 +286,72 @@ func c22(c *core.Ctx) {
 		}
 	}
 
+	rRB := c.Rule("C22.rawbytes", "a []byte model field is stored and read back as it is: on the decode path the payload format is sniffed (isMsgpackEncoded) only where the target field is known not to be a byte slice - under the else-branch of the 'element kind is uint8' test or in a kind-switch clause that lists no slice kind - so a []byte value that happens to start with the msgpack magic prefix is not unwrapped and decoded", 2)
+	{
+		dec := c.Fn(pkgSDK + ".setProtoTreasureToModel")
+		// the decoder and the same-package helpers it calls (one level)
+		funcs := []*core.Func{dec}
+		core.Calls(dec.Decl.Body, true, func(call *ast.CallExpr) {
+			if t := p.ByObj[core.Callee(dec.Info(), call)]; t != nil && t.Decl.Body != nil && core.Short(t.Pkg.PkgPath) == pkgSDK && t != dec {
+				funcs = append(funcs, t)
+			}
+		})
+		sniffer := p.FnOpt(pkgSDK + ".isMsgpackEncoded")
+		n := 0
+		seen := map[*core.Func]bool{}
+		for _, f := range funcs {
+			if seen[f] || f == sniffer {
+				continue
+			}
+			seen[f] = true
+			fi := f.Info()
+			fl := core.NewFlow(p, fi, f.Decl.Body)
+			core.Calls(f.Decl.Body, false, func(call *ast.CallExpr) {
+				if sniffer == nil || p.ByObj[core.Callee(fi, call)] != sniffer {
+					return
+				}
+				n++
+				c.Touch(f)
+				ok := false
+				// (a) dominated by `... .Kind() == reflect.Uint8` being false
+				if l, found := fl.Locate(call); found {
+					for _, ft := range fl.FactsAt(l) {
+						be, isB := ft.Expr.(*ast.BinaryExpr)
+						if !isB {
+							continue
+						}
+						if k, isK := core.ObjOf(fi, be.Y).(*types.Const); isK && k.Name() == "Uint8" && k.Pkg() != nil && k.Pkg().Path() == "reflect" {
+							if (be.Op == token.EQL && !ft.Truth) || (be.Op == token.NEQ && ft.Truth) {
+								ok = true
+							}
+						}
+					}
+				}
+				// (b) inside a clause of a kind switch that lists no slice kind
+				for _, nd := range core.PathTo(f.Decl.Body, call) {
+					if cc, isCC := nd.(*ast.CaseClause); isCC {
+						ks := kindNames(fi, cc)
+						if len(ks) > 0 {
+							noSlice := true
+							for _, k := range ks {
+								if k == "Slice" || k == "Array" {
+									noSlice = false
+								}
+							}
+							if noSlice {
+								ok = true
+							}
+						}
+					}
+				}
+				rRB.Check(ok, f.Key+":isMsgpackEncoded", call.Pos(), "format sniffed only for non-[]byte targets", "the payload format is sniffed before (or without) establishing that the target field is not a []byte: a raw []byte value that begins with the msgpack magic prefix 0xC7 0x00 is read back unwrapped and msgpack-decoded (different bytes, or a decode error)")
+			})
+		}
+		if n == 0 {
+			rRB.Bad(dec.Key+":format-sniffing", dec.Decl.Pos(), "the decoder no longer distinguishes msgpack from legacy payloads through isMsgpackEncoded")
+		}
+	}
+
 	rK := c.Rule("C22.kinds", "for every reflect.Kind that convertFieldToKvPair maps to a typed KeyValuePair slot, the branch of setProtoTreasureToModel for that slot accepts the kind and reads the slot with its own getter", 19)
 	{
 		enc := c.Fn(pkgSDK + ".convertFieldToKvPair")
